@@ -1099,7 +1099,7 @@ package connect
 // An error's metadata goes into HTTP headers or trailers without the keys that
 // describe the framing and encoding of a body (C05: they would describe the
 // wrong body; C11: every other key with all its values, in order).
-//@ macro framing(k seq) bool = k == "Content-Type" || k == "Content-Length" || k == "Content-Encoding" || k == "Transfer-Encoding" || k == "Trailer" || k == "Accept-Encoding" || k == "Connect-Content-Encoding" || k == "Connect-Accept-Encoding" || k == "Grpc-Encoding" || k == "Grpc-Accept-Encoding"
+//@ macro framing(k seq) bool = k == "Content-Type" || k == "Content-Length" || k == "Content-Encoding" || k == "Transfer-Encoding" || k == "Trailer" || k == "Connect-Content-Encoding" || k == "Grpc-Encoding"
 //@ func isFramingHeader(key) res
 //@   tags C05, C08, C11, C02
 //@   assigns nothing
